@@ -38,7 +38,7 @@ ASSUMPTIONS = [
     "split_non_commuting refusing var/sample/counts/probs of a Sum with RuntimeError, diagonalize_measurements refusing with ValueError/QuantumFunctionError and batch_* refusing with ValueError count as rejections.",
     "Operators that are left broadcasted by a transform are un-broadcast for the reference run with bind_new_parameters.",
 ]
-BUDGET = {"quick": {"examples": 2400}, "thorough": {"examples": 120000, "shards": 16}}
+BUDGET = {"quick": {"examples": 2000}, "thorough": {"examples": 120000, "shards": 16}}
 SHRINK_LISTS = ("ops", "meas")
 
 GS = ["default", "wires", "qwc", None]
@@ -48,41 +48,7 @@ BASES = ["PauliX", "PauliY", "PauliZ", "Hadamard"]
 # ------------------------------------------------------------------------------------------------ spec -> objects
 
 
-def build_obs(s):
-    import pennylane as qp
-
-    k = s["op"]
-    if k == "hamiltonian":
-        return qp.Hamiltonian([specs.param(c) for c in s["coeffs"]], [build_obs(o) for o in s["operands"]])
-    if k == "lincomb":
-        return qp.ops.LinearCombination([specs.param(c) for c in s["coeffs"]], [build_obs(o) for o in s["operands"]])
-    if k == "prod":
-        return qp.prod(*[build_obs(o) for o in s["operands"]])
-    if k == "sum":
-        return qp.sum(*[build_obs(o) for o in s["operands"]])
-    if k == "s_prod":
-        return qp.s_prod(specs.param(s["c"]), build_obs(s["base"]))
-    return specs.build_op(s)
-
-
-def build_meas(m):
-    import pennylane as qp
-
-    obs = build_obs(m["obs"]) if m.get("obs") else None
-    if obs is None:
-        return specs.build_meas(m)
-    k = m["mp"]
-    if k == "expval":
-        return qp.expval(obs)
-    if k == "var":
-        return qp.var(obs)
-    if k == "probs":
-        return qp.probs(op=obs)
-    if k == "sample":
-        return qp.sample(op=obs)
-    if k == "counts":
-        return qp.counts(op=obs, all_outcomes=m.get("all_outcomes", False))
-    raise ValueError(k)
+build_obs, build_meas = rgen.build_obs, rgen.build_meas
 
 
 def build_tape(spec, ops=None):
